@@ -23,6 +23,7 @@ CLAIMED = {
     "C13": ("Every (subject operand, lane position, companion class) triple of stated finite alphabets is executed next to the broadcast batch of the same subject on each architecture: bit-identity for the exact operations of C01-C08, same special-value class and accuracy bound for the elementary functions, with companion classes on both sides of every whole-batch any()/all() threshold.", "6 C13", "xvdrive+xvmath"),
     "C14": ("For every argument of the C10/C11 spaces and every architecture the number of iterations of the data-dependent loops of one call (counted through the XSIMD_VERIF_LOOP_TICK hook) is compared with a frozen per-function constant; calls are aborted after 1000 iterations, and a watchdog catches any call that does not return within 30 s (loops added without a tick).", "6 C14, 8.3", "xvmath"),
     "C15": ("All 5 242 880 hardware-presentable configurations of the CPUID feature bits and OS states the detector reads are injected and the availability flags compared with the property's decision model (exhaustive); the dispatcher is instantiated for about 600 generated architecture lists and run under every relevant availability vector.", "6 C15", "xvcpuid"),
+    "C18": ("All allocate/deallocate histories up to length 5 (thorough 6) over a 9-symbol alphabet, for 40 (T, Align) instantiations, executed on the real allocator under AddressSanitizer with a model of live blocks checked after every step; every subset of <= 2 injected posix_memalign failures per history; complete enumeration of the size-overflow window and of the alignment predicates over their residues.", "6 C18", "xvalloc"),
     "C17": ("Every scalar overload of the list is executed on the full operand spaces of C01/C02/C03/C06/C07/C08 (non-NaN operands) under each architecture's compile flags and judged by the same reference model as the batch lanes, so scalar and batch agree wherever the model is single-valued; clip and integer-exponent pow are checked in both forms against one shared model.", "6 C17", "xvdrive"),
 }
 
@@ -62,6 +63,8 @@ def main():
         "engines": [
             {"name": "xvcpuid", "path": "harness/h_cpuid.cpp", "serves_properties": ["C15"],
              "kind_free_text": "exhaustive enumeration of CPUID/XGETBV configurations through the injected source; generated dispatch programs (gen/gen_dispatch.py)"},
+            {"name": "xvalloc", "path": "harness/h_alloc.cpp", "serves_properties": ["C18"],
+             "kind_free_text": "explicit-state enumeration of allocator histories on the real code (ASan build), deviation-bounded fault injection by interposing posix_memalign"},
             {"name": "xvmath", "path": "engine/xvmath.cpp", "serves_properties": sorted(k for k, v in CLAIMED.items() if "xvmath" in v[2]),
              "kind_free_text": "bounded exhaustive explorer for the elementary functions: complete sweeps of stated argument spaces (all 2^32 float32 arguments in the thorough tier) in two stream orders over every architecture's kernel, ulp-bound and graceful-degradation oracles, MPFR arbiter, loop-tick accounting, hang watchdog"},
             {"name": "xvdrive", "path": "engine/xvdrive.cpp", "serves_properties": sorted(k for k, v in CLAIMED.items() if "xvdrive" in v[2]),
